@@ -245,7 +245,8 @@ def c17(rep, rnd, thorough):
         path = "".join(spell[t] for t in path_t)
         prefix = "".join(spell[t] for t in prefix_t)
         mapped = "".join(spell[t] for t in s["out"]["p"])
-        query = {"": "", "q": rnd.choice(["q=1", "next=/login?user=admin", "a=b&c=d", "x=%3F"])}[q]
+        query = {"": "", "q": rnd.choice(["q=1", "next=/login?user=admin", "a=b&c=d", "x=%3F", "titan://front.example/wiki/Home", "u=gemini://other.ex/x",
+                                       "r=titan://a.ex/f;size=3&s=Titan://b", "https://ex.org/?a=titan://"])}[q]
         up = rnd.choice(UPSTREAMS)
         key = (up[0], prefix, strip)
         net = Net()
